@@ -10,15 +10,19 @@ interpreted, output collected) is parsed by the checker and evaluated per order 
  conds-table    CONDS has the six comparison operators, each mapped to its logical complement
                 (decided on the three order types) and is an involution; the neg() methods of the
                 conditional IR expressions replace op by CONDS[op].
- merge-routing  the body of the merge loop of short_circuit_struct (with the real MergeNodes, Graph,
-                Condition, ShortCircuitBlock) is evaluated for every two-node configuration
-                node/then/else over exit targets: when it merges, for every order type of both leaves
-                the printed merged condition selects merged.true/false == the successor the original
-                two branches select; merged successors are live nodes.
+ merge-routing  short_circuit_struct(graph, idom, node_map) is evaluated AS A WHOLE (with the real Graph, Condition,
+                ShortCircuitBlock ...; generator functions such as Graph.post_order are evaluated eagerly) on every
+                two-node configuration node/then/else over exit targets: when it merges, for every order type of both
+                leaves the printed merged condition selects merged.true/false == the successor the original two branches
+                select AND evaluates the same leaf conditions in the same order (Java short-circuit semantics);
+                merged successors are live nodes; no merge when the second node has another entry.
  neg-contract   merged.neg() complements the printed condition on every order type (De Morgan through
                 Condition.neg / CONDS), so neg()+swap of true/false preserves routing.
- chains-3       three-node chains merged by two successive steps (both nesting orders) route as the
-                original chain for all 27 order types (quick: a fixed subset; thorough: all).
+ chains-3       three-node chains (the third test optionally reachable from both others), merged by one whole pass
+                (inner pair first) and by two passes with the third test kept unabsorbable during the first (outer pair
+                first, so the merged node becomes a first operand): all 32 combinations of nesting position and
+                and/or x negation at both levels arise; routing and evaluation order on all 27 order types, and the
+                neg() contract on the nested condition.
  writer-pairing Writer.visit_cond_node (and the pre-test branch of visit_loop_node) is evaluated with a
                 merged condition under every combination of follow / loop-follow / next-case /
                 numbering: at the moment the condition is printed, `printed ? cond.true : cond.false`
@@ -187,15 +191,27 @@ def parse_cond(text):
     return e
 
 
-def eval_cond(e, vals):
+def eval_cond(e, vals, trace=None):
+    """Java semantics: left to right, && / || short-circuit.  `trace` collects the comparisons actually evaluated."""
     k = e[0]
     if k == "or":
-        return eval_cond(e[1], vals) or eval_cond(e[2], vals)
+        return eval_cond(e[1], vals, trace) or eval_cond(e[2], vals, trace)
     if k == "and":
-        return eval_cond(e[1], vals) and eval_cond(e[2], vals)
+        return eval_cond(e[1], vals, trace) and eval_cond(e[2], vals, trace)
     if k == "not":
-        return not eval_cond(e[1], vals)
+        return not eval_cond(e[1], vals, trace)
+    if trace is not None:
+        trace.append(e[2][:-1])
     return OPS[e[1]](vals[e[2]], vals[e[3]])
+
+
+def leaves_in(text):
+    """leaf names in printing order (every leaf prints `<name>x OP <name>y`)"""
+    out = []
+    for x in re.findall(r"[A-Za-z_]\w*", text):
+        if x[:-1] not in out:
+            out.append(x[:-1])
+    return out
 
 
 # --------------------------------------------------------------------------- world
@@ -213,6 +229,7 @@ class World:
         self.leaf_op = {}      # leaf name -> original operator
         self.orig = {}         # leaf name -> (true node, false node)
         self.nodes = {}
+        self.pass_error = None
 
     # -- construction through the real constructors
     def leaf(self, name, op):
@@ -247,33 +264,34 @@ class World:
     def live(self):
         return list(self.graph.attrs["nodes"])
 
-    # -- one evaluation of the merge-loop body for `node`
-    def merge_step(self, anchors, node):
+    # -- one evaluation of short_circuit_struct(graph, idom, node_map) as a whole
+    def run_pass(self, anchors):
+        """-> nodes of the graph that did not exist before the pass"""
         it = self.it
-        f = anchors.scs
-        env = Env(self.cf, it.module_env(self.cf))
-        params = f.params()
-        idom = {n: None for n in self.live()}
-        for p, v in zip(params, (self.graph, idom, {})):
-            env.vars[p] = v
         before = self.live()
+        idom = {n: None for n in before}
         try:
-            for s in anchors.pre_while:
-                it.exec_stmt(s, env)
-            for s in anchors.pre_for:
-                it.exec_stmt(s, env)
-            it.assign(anchors.for_loop.target, node, env)
-            try:
-                it.exec_block(anchors.for_loop.body, env)
-            except _Continue:
-                pass
+            it.call(it.closure_of(anchors.scs), [self.graph, idom, {}])
         except PyRaise as e:
-            raise AnalysisError("the merge loop body raised %s in the model" % e)
+            # a crash after a merge is judged on the merged node it left behind (e.g. a successor that was never set);
+            # without such positive evidence it is an analysis error, not a verdict
+            self.pass_error = e
         new = [n for n in self.live() if not any(n is b for b in before)]
+        if self.pass_error is not None and not new:
+            raise AnalysisError("short_circuit_struct raised %s on the model graph" % self.pass_error)
+        return new
+
+    def settle(self, ok):
+        """after the merged nodes were checked: a crash of the pass that the checks did not explain is an analysis error"""
+        if self.pass_error is not None and ok:
+            raise AnalysisError("short_circuit_struct raised %s on the model graph" % self.pass_error)
+
+    def merge_step(self, anchors, node=None):
+        new = self.run_pass(anchors)
         if not new:
             return None
         if len(new) != 1:
-            raise AnalysisError("one merge step added %d nodes" % len(new))
+            raise AnalysisError("one pass over a single chain left %d new nodes" % len(new))
         return new[0]
 
     # -- printing
@@ -291,6 +309,13 @@ class World:
             raise AnalysisError("printing the condition raised %s in the model" % e)
         return "".join(w.attrs["_out"])
 
+    def leaf_count(self, cond_node):
+        """number of conditional leaves inside a (merged) node: one conditional instruction each (non-mutating)"""
+        try:
+            return len(self.it.iterate(self.it.call(self.it.getattr(cond_node, "get_ins"), [])))
+        except PyRaise as e:
+            raise AnalysisError("get_ins() of a merged node raised %s in the model" % e)
+
     # -- original routing
     def leaves_of(self, names):
         return list(names)
@@ -303,17 +328,26 @@ class World:
             vals[name + "y"] = y
         return vals
 
-    def route(self, start, state, chain):
+    def route(self, start, state, chain, trace=None):
         """follow the ORIGINAL true/false attributes through the leaves of `chain`"""
         n = start
         for _ in range(len(chain) + 1):
             name = next((k for k in chain if self.nodes[k] is n), None)
             if name is None:
                 return n
+            if trace is not None:
+                trace.append(name)
             x, y = STATES[state[name]]
             t, f = self.orig[name]
             n = t if OPS[self.leaf_op[name]](x, y) else f
         return n
+
+    def head_of(self, chain):
+        """the leaf of `chain` that no other leaf of the chain leads to"""
+        heads = [k for k in chain if not any(self.nodes[k] is x for j in chain if j != k for x in self.orig[j])]
+        if len(heads) != 1:
+            raise AnalysisError("merged leaves %s do not form a chain with one head" % (chain,))
+        return heads[0]
 
 
 class Anchors:
@@ -323,25 +357,11 @@ class Anchors:
             sink.mod(rel)
         self.scs = cf.func("short_circuit_struct")
         sink.analysed(self.scs)
-        body = self.scs.node.body
-        merge_defs = [s for s in body if isinstance(s, ast.FunctionDef)
-                      and any(isinstance(c, ast.Call) and isinstance(c.func, ast.Name) and c.func.id == "Condition" for c in ast.walk(s))]
-        sink.require(len(merge_defs) == 1, "anchor vanished: short_circuit_struct has no single nested merge function building Condition(...)")
-        self.merge_name = merge_defs[0].name
-        whiles = [s for s in body if isinstance(s, ast.While)]
-        sink.require(len(whiles) == 1, "anchor vanished: short_circuit_struct has no single top-level fixpoint loop")
-        w = whiles[0]
-        fors = [s for s in w.body if isinstance(s, ast.For) and any(
-            isinstance(c, ast.Call) and isinstance(c.func, ast.Name) and c.func.id == self.merge_name for c in ast.walk(s))]
-        sink.require(len(fors) == 1 and isinstance(fors[0].target, ast.Name), "anchor vanished: no single merge loop calling %s" % self.merge_name)
-        self.for_loop = fors[0]
-        self.pre_while = body[:body.index(w)]
-        self.pre_for = w.body[:w.body.index(self.for_loop)]
-        self.sites = [c for c in ast.walk(self.for_loop) if isinstance(c, ast.Call) and isinstance(c.func, ast.Name) and c.func.id == self.merge_name]
-        for q, rel in (("Condition.neg", BB), ("Condition.visit", BB), ("ShortCircuitBlock.neg", BB), ("ShortCircuitBlock.visit_cond", BB),
-                       ("CondBlock.neg", BB), ("CondBlock.visit_cond", BB), ("Writer.visit_short_circuit_condition", WR),
-                       ("Writer.visit_cond_node", WR), ("Writer.visit_cond_expression", WR), ("ConditionalExpression.neg", INS)):
+        sink.require(len(self.scs.params()) == 3, "short_circuit_struct no longer takes (graph, idom, node_map)")
+        for q, rel in (("Writer.visit_short_circuit_condition", WR), ("Writer.visit_cond_node", WR)):
             sink.analysed(repo.mod(rel).func(q))
+        for cname in ("Condition", "ShortCircuitBlock", "CondBlock"):
+            repo.mod(BB).cls(cname)
 
 
 # --------------------------------------------------------------------------- CONDS
@@ -425,7 +445,8 @@ def _name(n):
 
 
 def _check_merged(sink, w, M, chain, inst, func, rule, describe):
-    """printed condition of M routes like the original chain; returns (ok, text)"""
+    """printed condition of M routes like the original chain (same successor, same conditions evaluated in the same
+    order); `chain` = leaves expected inside M, or None to take them from the printed text.  returns (ok, text)"""
     live = w.live()
     for side in ("true", "false"):
         tgt = M.attrs.get(side)
@@ -436,26 +457,33 @@ def _check_merged(sink, w, M, chain, inst, func, rule, describe):
             return False, ""
     text = w.printed(M)
     expr = parse_cond(text)
-    # operands are printed (hence evaluated by Java's short-circuit operators) in the order of the original chain
-    order = [x[:-1] for x in re.findall(r"[A-Za-z_]\w*", text)][::2]
-    sink.check(rule, inst + " operand order", order == list(chain), func,
-               "%s: printed `%s` evaluates %s, original chain evaluates %s" % (describe, _abstract(text, w), order, list(chain)),
-               "merge %s prints `%s`: the conditions are evaluated in the order %s, the original branches in the order %s"
-               % (describe, text, order, list(chain)), detail="operands printed in chain order %s" % list(chain))
+    printed_leaves = leaves_in(text)
+    if chain is None:
+        chain = printed_leaves
+    unknown = [k for k in printed_leaves if k not in w.orig]
+    if unknown or sorted(printed_leaves) != sorted(chain):
+        sink.check(rule, inst + " operands", False, func, "%s: printed `%s` combines %s, merged nodes are %s" % (describe, text, printed_leaves, list(chain)),
+                   "merge %s prints `%s`, whose operands %s are not the merged conditions %s" % (describe, text, printed_leaves, list(chain)))
+        return False, text
+    head = w.nodes[w.head_of(chain)]
     bad = None
     for combo in itertools.product(STATES, repeat=len(chain)):
         state = dict(zip(chain, combo))
-        want = w.route(w.nodes[chain[0]], state, chain)
-        got = M.attrs["true"] if eval_cond(expr, w.values(state)) else M.attrs["false"]
+        otrace, ptrace = [], []
+        want = w.route(head, state, chain, otrace)
+        got = M.attrs["true"] if eval_cond(expr, w.values(state), ptrace) else M.attrs["false"]
         if got is not want:
-            bad = (state, _name(got), _name(want))
+            bad = (state, "goes to %s" % _name(got), "go to %s" % _name(want))
+            break
+        if otrace != ptrace:
+            bad = (state, "evaluates %s" % ptrace, "evaluate %s" % otrace)
             break
     sink.check(rule, inst, bad is None, func,
-               "%s: printed `%s` routes to %s, original chain to %s" % ((describe, _abstract(text, w)) + ((bad[1], bad[2]) if bad else ("-", "-"))),
-               "merge %s prints `%s` with true->%s false->%s; for %s the merged node goes to %s but the original branches go to %s"
+               "%s: printed `%s` %s, original branches %s" % ((describe, _abstract(text, w)) + ((bad[1], bad[2]) if bad else ("-", "-"))),
+               "merge %s prints `%s` with true->%s false->%s; for %s the printed condition %s but the original branches %s"
                % (describe, text, _name(M.attrs["true"]), _name(M.attrs["false"]), bad[0] if bad else "", bad[1] if bad else "", bad[2] if bad else ""),
                witness=dict(printed=text, state=bad[0]) if bad else None,
-               detail="%s: `%s` ? %s : %s equals the original routing on all %d order types" % (
+               detail="%s: `%s` ? %s : %s selects the original successor and evaluates the same conditions in the same order on all %d order types" % (
                    describe, text, _name(M.attrs["true"]), _name(M.attrs["false"]), 3 ** len(chain)))
     return bad is None, text
 
@@ -486,6 +514,7 @@ def check_two_nodes(sink, repo, anchors):
         shape = _shape(cfg)
         merged_shapes.add((cfg[0] == "T", cfg[2] if cfg[0] == "T" else cfg[3]))
         ok, text = _check_merged(sink, w, M, ["N", "T"], "config %s ops %s" % (shape, ops), f, "merge-routing", shape)
+        w.settle(ok)
         if not ok:
             continue
         if cfg[4]:
@@ -546,7 +575,7 @@ def _configs3(full):
 
 
 def _build3(repo, anchors, o, n, t, order, ops):
-    """-> (world, node after two successive merge steps | None)"""
+    """-> (world, merged nodes alive after the pass(es))"""
     w = World(repo)
     P = w.stmt("P")
     O = w.leaf("O", ops[0])
@@ -559,12 +588,18 @@ def _build3(repo, anchors, o, n, t, order, ops):
     w.wire("O", pick[o[0]], pick[o[1]])
     w.wire("N", pick[n[0]], pick[n[1]])
     w.wire("T", pick[t[0]], pick[t[1]])
-    first = w.merge_step(anchors, N if order == "inner-first" else O)
-    if first is None:
-        return w, None
-    # the head of the remaining chain: O (if N,T were merged) or the merged node (if O,N were merged)
-    head = O if order == "inner-first" else first
-    return w, w.merge_step(anchors, head)
+    if order == "outer-first":
+        # keep the third test unabsorbable during a first pass (a further predecessor), so that the first two are merged
+        # first and the merged node becomes the FIRST operand of the second merge; then drop that predecessor
+        Q = w.stmt("Q")
+        w.edge(P, Q)
+        w.edge(Q, T)
+        w.run_pass(anchors)
+        w.it.call(w.it.getattr(w.graph, "remove_node"), [Q])
+    w.run_pass(anchors)
+    originals = list(w.nodes.values())
+    merged = [x for x in w.live() if not any(x is y for y in originals)]
+    return w, merged
 
 
 def check_three_nodes(sink, repo, anchors, full):
@@ -573,19 +608,30 @@ def check_three_nodes(sink, repo, anchors, full):
     for i, (o, n, t, order) in _configs3(full):
         ops = (_OPL[i % 6], _OPL[(i // 6 + 1) % 6], _OPL[(i // 36 + 3) % 6])
         sink.count("configs3")
-        w, second = _build3(repo, anchors, o, n, t, order, ops)
+        w, merged = _build3(repo, anchors, o, n, t, order, ops)
+        desc = "O(true=%s,false=%s) N(true=%s,false=%s) T(true=%s,false=%s) %s" % (o + n + t + (order,))
+        second = None
+        ok, text = True, ""
+        for M in merged:
+            ok_m, text_m = _check_merged(sink, w, M, None, "chain %s ops %s node %s" % (desc, ops, _name(M)), f, "chains-3", desc)
+            if len(leaves_in(text_m)) == 3:
+                second, ok, text = M, ok_m, text_m
+            elif not ok_m:
+                ok = False
+        w.settle(ok)
         if second is None:
             continue
         sink.count("merges3")
-        desc = "O(true=%s,false=%s) N(true=%s,false=%s) T(true=%s,false=%s) %s" % (o + n + t + (order,))
-        ok, text = _check_merged(sink, w, second, ["O", "N", "T"], "chain %s ops %s" % (desc, ops), f, "chains-3", desc)
         skeleton = (re.sub(r"[A-Za-z_]\w*\s*(==|!=|<=|>=|<|>)\s*[A-Za-z_]\w*", "c", text), order)
         shapes.add(skeleton)
         if not ok or (not full and skeleton in negged):
             continue
         negged.add(skeleton)
         # neg contract of the nested condition, on a fresh identical double merge
-        w2, second2 = _build3(repo, anchors, o, n, t, order, ops)
+        w2, merged2 = _build3(repo, anchors, o, n, t, order, ops)
+        second2 = next((x for x in merged2 if w2.leaf_count(x) == 3), None)
+        if second2 is None:
+            raise AnalysisError("the same chain configuration merged differently on a second construction")
         try:
             w2.it.call(w2.it.getattr(second2, "neg"), [])
         except PyRaise as e:
@@ -696,7 +742,6 @@ def _check_snaps(sink, w, wobj, M, func, inst, describe):
 # --------------------------------------------------------------------------- driver
 def core(sink, repo, full=False):
     anchors = Anchors(sink, repo)
-    sink.count("merge_sites", len(anchors.sites))
     check_conds(sink, repo)
     before = len(sink.findings)
     shapes = check_two_nodes(sink, repo, anchors)
@@ -859,21 +904,20 @@ def run(ctx):
         core(ctx, ctx.repo, full)
     except PyRaise as e:
         raise AnalysisError("model evaluation raised %s outside a decided clause" % e)
-    ctx.floor("merge_sites", 4)
     ctx.floor("conds_rows", 6)
     ctx.floor("neg_methods", 2)
     ctx.floor("merge_shapes", 4)
     ctx.floor("configs2", 288)
     ctx.floor("merges2", 8)
     if not ctx.counts.get("dependent_skipped"):
-        ctx.floor("merges3", 88)
+        ctx.floor("merges3", 128)
         ctx.floor("chain_shapes", 8)
         ctx.floor("writer_cases", 200 if full else 104)
     ctx.assume("leaf conditions are side-effect free, so equality of the selected successor for every outcome combination is routing equivalence")
     ctx.assume("back edges into the chain (a conditional node that is its own successor) are outside the quantifier (exit targets only)")
     ctx.note("noted, not a verdict: Writer.visit_short_circuit_condition negates cond1 in place when nnot is set, so printing the same "
              "merged condition twice prints two different conditions; every check prints a freshly merged condition once")
-    ctx.note("not decided: the fixpoint iteration order over graph.post_order() (a lazy generator over a graph that is being modified); "
+    ctx.note("generator functions (Graph.post_order) are evaluated eagerly: the sweep sees the node list of the graph as it was when the sweep began; "
              "dast.py (the AST back end) applies its own negations and is not covered")
     if full:
         mutation_adequacy(ctx, ctx.repo)
